@@ -139,17 +139,18 @@ namespace igris
 
     std::string base64url_decode(const std::string &s)
     {
-        std::string ret = base64_encode(s);
-        auto it = ret.begin();
-        auto eit = ret.end();
+        // translate the url-safe alphabet back, then decode
+        std::string std_text = s;
+        auto it = std_text.begin();
+        auto eit = std_text.end();
         for (;it != eit; ++it)
         {
-            if (*it == '+')
-                *it = '-';
-            if (*it == '/')
-                *it = '_';
+            if (*it == '-')
+                *it = '+';
+            if (*it == '_')
+                *it = '/';
         }
-        return ret;
+        return base64_decode(std_text);
     }
 
 }
